@@ -26,7 +26,7 @@ CONSTANTS Seeds,      \* set of seeds for mode "seeded"
           WithStatic  \* TRUE: also print Static!Valid and the expected name diagnostics
 
 \* ---- layout and positions ----------------------------------------------
-Lay == <<" ", "\n", "  ", "\t", " /* é c */ ", "\r\n", " // x é\n", "\n\n ", " /* a\n b */", " \t ">>
+Lay == <<" ", "\n", "  ", "\t", " /* é c */ ", "\r\n", " // x é\n", "\n\n ", " /* a\n b */", " \t ", "\r", " \r ", "\n\r">>
 Punct == {"[", "]", "{", "}", "(", ")", "=", ",", "*"}
 Tight(prev, cur) == prev \in Punct \/ cur \in Punct
 LayFor(seed, i, prev, cur) ==
